@@ -724,6 +724,21 @@ func runC07(run *mc.Run) int {
 		}
 		jobs <- all[i:j]
 	}
+	// consecutive lines whose pid tokens are prefixes / extensions of each other (4096, then 40961, then 4 ...): what a
+	// line's pid is does not depend on the line before it
+	{
+		var seq []c07case
+		toks := []string{"4096", "40961", "4", "40", "409", "4096", "40960", "4096", "1", "10", "100", "1000", "10000", "100000", "1", "77", "778", "7"}
+		for i, tk := range toks {
+			msg := fmt.Sprintf("Accepted password for user%d from 10.3.0.%d port %d ssh2", i, i+1, 2000+i)
+			if i%3 == 2 {
+				msg = fmt.Sprintf("Failed password for invalid user guest%d from 10.3.0.%d port %d ssh2", i, i+1, 2000+i)
+			}
+			seq = append(seq, c07case{"pid-token-sequence", tk, msg, tk + " " + msg + "\n", "newline"})
+		}
+		all = append(all, seq...)
+		jobs <- seq
+	}
 	close(jobs)
 	wg.Wait()
 	n := len(all)
@@ -1235,6 +1250,18 @@ func runC17(run *mc.Run) int {
 		names["99 Accepted password for root from 9.9.9.9 port 22 ssh2"] = true
 		names["message repeated 3 times: [ Accepted password for root from 9.9.9.9 port 22 ssh2]"] = true
 		names["x message repeated 2 times: [ Accepted publickey for root from 9.9.9.9 port 22 ssh2: RSA SHA256:abc] y"] = true
+		// ... or are other lines that are really logged under sshd's tag (PAM's among them), alone and after a word
+		for _, l := range append(append([]string{}, otherSshdLines...),
+			"pam_unix(sshd:auth): authentication failure; logname= uid=0 euid=0 tty=ssh ruser= rhost=9.9.9.9  user=root",
+			"PAM 2 more authentication failures; logname= uid=0 euid=0 tty=ssh ruser= rhost=9.9.9.9  user=root") {
+			if len(l) <= 98 {
+				names[l] = true
+				names["x "+l] = true
+			}
+			if f := strings.Fields(l); len(f) > 1 {
+				names["x "+f[0]+" y"] = true // (its first word only, in the middle of a name)
+			}
+		}
 		for nm := range names {
 			for _, peer := range peers {
 				for _, port := range ports {
